@@ -278,6 +278,9 @@ impl Prop for C04 {
     fn shrink(&self, _case: &Value) -> Vec<Value> {
         vec![]
     }
+    fn evaluations_from(&self) -> Option<&'static str> {
+        Some("crash_images")
+    }
     fn refine_case(&self, case: &Value, v: &Violation) -> Value {
         // the replay file re-executes only the failing crash point
         let mut c = case.clone();
